@@ -116,7 +116,7 @@ def main():
     if rej or not tr.ok:
         if tr.timed_out or (not rej and not tr.violated):
             c.tool_error(f"trace validation did not complete: {tr.error_text} {tr.raw_tail[-800:]}")
-        lines = open(tp).read().splitlines()
+        lines = open(tp).read().split("\n")
         at = None
         if rej and isinstance(rej[0], dict):
             at = rej[0].get("line")
